@@ -255,3 +255,69 @@ if __name__ == '__main__':
               'nullext', can_null_extend(jt, 0), can_null_extend(jt, 1),
               'unmatched', depends_on_unmatched(jt, 0), depends_on_unmatched(jt, 1),
               'limit', limit_commutes_with_side(jt, 0), limit_commutes_with_side(jt, 1))
+
+
+def empty_given(jt, left_empty, right_empty):
+    """join is empty for every input consistent with the given emptiness flags"""
+    for L in ([[]] if left_empty else RELS):
+        for R in ([[]] if right_empty else RELS):
+            if sum(join(L, R, jt).values()):
+                return False
+    return True
+
+
+def null_padded_passthrough(jt, kept_side):
+    """with the other side empty, the join equals the kept side's rows NULL-padded
+    (two-sided types) for every relation"""
+    if jt not in TWO_SIDED:
+        return False
+    for X in RELS:
+        if kept_side == 0:
+            out = join(X, [], jt)
+            want = Counter((x, None) for x in X)
+        else:
+            out = join([], X, jt)
+            want = Counter((None, x) for x in X)
+        if out != want:
+            return False
+    return True
+
+
+def plain_passthrough(jt, kept_side):
+    """with the other side empty the join equals exactly the kept side's rows (one-sided types)"""
+    if jt in TWO_SIDED or has_mark(jt):
+        return False
+    for X in RELS:
+        out = join(X, [], jt) if kept_side == 0 else join([], X, jt)
+        if out != Counter((x,) for x in X):
+            return False
+    return True
+
+
+def cross_limit_commutes(jt, n=1):
+    """cartesian product (no condition): limiting BOTH inputs to n rows still yields
+    min(n,total) rows, all of which are rows of the full result"""
+    on = lambda l, r: True
+    for L in RELS:
+        for R in RELS:
+            full = join(L, R, jt, on=on)
+            tot = sum(full.values())
+            part = join(L[:n], R[:n], jt, on=on)
+            if any(part[r] > full[r] for r in part) or sum(part.values()) < min(n, tot):
+                return False
+    return True
+
+
+def no_match_gives_empty(jt):
+    """whenever no left row matches any right row (empty hash map of usable keys, e.g. all build
+    keys NULL, or an empty build side), the join result is empty for every right side"""
+    for L in RELS:
+        for R in RELS:
+            if any(eq(l, r) for l in L for r in R):
+                continue
+            # the build-side map is empty only if no build row has a usable key
+            if any(l[0] is not None for l in L):
+                continue
+            if sum(join(L, R, jt).values()):
+                return False
+    return True
